@@ -749,7 +749,8 @@ func (p *parser) parseField(node *node32) (field *Field, err error) {
 				f.ReservedComments = reservedComments
 			}
 		case ruleFieldId:
-			i, _ := strconv.ParseInt(p.pegText(node), 10, 32)
+			// same spellings as every other integer constant of the grammar (0x.., 0o.., signed decimal)
+			i, _ := strconv.ParseInt(p.pegText(node), 0, 32)
 			f.ID = int32(i)
 		case ruleFieldReq:
 			require := p.pegText(node)
